@@ -464,3 +464,14 @@ def time_limit(sec):
 def canon_dict(d):
     """order-free form of a caller dictionary in JSON form (inner values: target or label list)"""
     return sorted(((repr(v), sorted((repr(a), repr(sorted(b)) if isinstance(b, list) else repr(b)) for a, b in row)) for v, row in d))
+
+
+def bounded(run, sec=30):
+    """a `run` function whose every evaluation is bounded in time: an implementation that stops terminating on a
+    generated input (a leaked cache, a shared table growing across automata) is reported as a failing input of that
+    clause instead of stalling the whole check"""
+    def wrapped(inp):
+        with time_limit(sec):
+            return run(inp)
+    wrapped.__name__ = getattr(run, "__name__", "run")
+    return wrapped
